@@ -178,7 +178,8 @@ MANIFEST = dict(
          "its cached kernel time, Scan's NAT pairing and cleanup-queue writes) and of the kernel cleaner's per-entry callback, "
          "for every interleaving of scanner callbacks, cleaner callbacks, packets, dataplane rewrites/evictions and clock ticks: "
          "an entry is deleted only if it was judged idle past the timeout of its protocol/state and is unchanged since; "
-         "idle entries are deleted by one judge/clean round.  Correspondence run of the userspace half against the real Go code.",
+         "a complete scan + cleaner pass (any orders) removes every idle entry, forward entries within two rounds; the spec oracle "
+         "accepts every model run.  Correspondence run of the userspace half (IPv4 and IPv6 map types) against the real Go code.",
     note="PARTIAL: the kernel program is not executed; process_ccq_entry and the last_seen refresh are hand-modelled, assumed "
          "atomic, and tied to the C source only by a text hash (a change is reported as VIOLATION ... no-failing-input-found).",
 )
